@@ -27,7 +27,10 @@ ASSUME = [
 RULE = ("translator sample goals: merge_radius_d / merge_pos_d / merge_width and the store-level merge_exec_d under the "
         "in-place aliasing, evaluated by the implementation (pure-Python merge_data) on seeded operands (radii over "
         "2^-20..2^20 incl. zero-radius operands, positions of both signs) and compared inside Coq by interval "
-        "arithmetic; oracle cases: distinct (class, dim, operands) tuples, non-trivial = unequal radii")
+        "arithmetic; oracle cases: distinct (class, dim, operands) tuples, non-trivial = unequal radii; provenance stream: "
+        "every way of obtaining a droplet (constructed, copy, deepcopy, pickle 2/HIGHEST, Emulsion member with and "
+        "without copy / after get_linked_data, unpickled Emulsion, HDF5 round trip, previous merge) as first, as second "
+        "and as both operands, in place and out of place")
 
 REL = 1e-12  # conservation tolerance requested by the property design (k merges x few ulp each)
 PATH_REL = 1e-14  # code paths evaluate the same arithmetic: 4 ulp x (<= 10 operations)
@@ -267,6 +270,135 @@ def oracle(rng: random.Random, npairs: int, ntrees: int, use_numba=True, ctx=Non
     return fails
 
 
+# ------------------------------------------------------------------------------------------------
+# provenance of the operands: the property quantifies over all droplets, however they were obtained
+# ------------------------------------------------------------------------------------------------
+def _provenances(cls_name, d):
+    """name -> function turning a freshly constructed droplet into an equal droplet of that provenance."""
+    import copy
+    import os
+    import pickle
+    import tempfile
+    from droplets.emulsions import Emulsion
+
+    def other():  # a second member for the emulsions
+        return _make(cls_name, d, 0.25, [9.0] * d, 0.125)
+
+    def linked(x):
+        e = Emulsion([x, other()])
+        e.get_linked_data()
+        return e[0]
+
+    def from_file(x):
+        root = vlib.BUILD / "cases" / "C11"
+        root.mkdir(parents=True, exist_ok=True)
+        with tempfile.TemporaryDirectory(dir=root) as t:
+            path = os.path.join(t, "emulsion.hdf5")
+            Emulsion([x, other()]).to_file(path)
+            return Emulsion.from_file(path)[0]
+
+    def merged(x):  # result of a previous merge (with a vanished droplet at the same place: an equal droplet)
+        w = x.data["interface_width"] if "interface_width" in x.data.dtype.names else None
+        return x.merge(_make(cls_name, d, 0.0, list(x.position), w))
+
+    return {
+        "constructed": lambda x: x,
+        "copy()": lambda x: x.copy(),
+        "copy.deepcopy": lambda x: copy.deepcopy(x),
+        "pickle protocol 2": lambda x: pickle.loads(pickle.dumps(x, 2)),
+        "pickle HIGHEST_PROTOCOL": lambda x: pickle.loads(pickle.dumps(x, pickle.HIGHEST_PROTOCOL)),
+        "Emulsion member": lambda x: Emulsion([x, other()])[0],
+        "Emulsion member (copy=False)": lambda x: Emulsion([x, other()], copy=False)[0],
+        "Emulsion member after get_linked_data": linked,
+        "member of an unpickled Emulsion": lambda x: pickle.loads(pickle.dumps(Emulsion([x, other()])))[0],
+        "read back from an HDF5 file": from_file,
+        "result of a previous merge": merged,
+    }
+
+
+def check_provenance(cls_name, d, A, B, p1, p2):
+    """Conservation, in-place == out-of-place and operand immutability for operands of provenance p1, p2."""
+    fails = []
+    inp = {"class": cls_name, "dim": d, "r1": A[0], "p1": A[1], "w1": A[2], "r2": B[0], "p2": B[1], "w2": B[2],
+           "provenance_first": p1, "provenance_second": p2}
+
+    def fail(what, **kw):
+        fails.append({"what": what, **inp, **kw})
+
+    cls = _classes()[cls_name]
+    prov = _provenances(cls_name, d)
+    try:
+        x, y = prov[p1](_make(cls_name, d, *A)), prov[p2](_make(cls_name, d, *B))
+        x2 = prov[p1](_make(cls_name, d, *A))
+        x3 = prov[p1](_make(cls_name, d, *A))
+    except Exception as e:
+        fail(f"droplet of this provenance cannot be obtained: {type(e).__name__}: {e}")
+        return fails
+    sc = max([abs(v) for v in A[1] + B[1]] + [1e-300])
+    if not (_same_rec(_rec(x), _rec(_make(cls_name, d, *A)), PATH_REL, sc)
+            and _same_rec(_rec(y), _rec(_make(cls_name, d, *B)), PATH_REL, sc)):
+        fail("droplet of this provenance differs from the constructed one", got=[_rec(x), _rec(y)])
+        return fails
+    bx, by = x.data.tobytes(), y.data.tobytes()
+    V1, V2 = vol(A[0], d), vol(B[0], d)
+    pscale = max([abs(v) for v in A[1] + B[1]] + [1e-300])
+    want_pos = [(V1 * a + V2 * b) / (V1 + V2) for a, b in zip(A[1], B[1])]
+
+    def conserved(rec):
+        return (_close(vol(rec[0], d), V1 + V2, REL) and all(_close(a, b, REL, pscale) for a, b in zip(rec[1], want_pos))
+                and (rec[2] is None or _close(rec[2], (A[2] + B[2]) / 2, PATH_REL)))
+
+    try:
+        m = x.merge(y, inplace=False)
+        rm = _rec(m)
+        if not conserved(rm):
+            fail("out-of-place merge does not conserve volume / centre of mass / mean width", merged=rm,
+                 expected_volume=V1 + V2, expected_position=want_pos)
+        if x.data.tobytes() != bx or y.data.tobytes() != by:
+            fail("merge(inplace=False) modified an operand", after=[_rec(x), _rec(y)])
+        r = x2.merge(y, inplace=True)
+        ri = _rec(x2)
+        if r is not x2:
+            fail("merge(inplace=True) does not return the first operand")
+        if not conserved(ri):
+            fail("in-place merge does not conserve volume / centre of mass / mean width", first_operand_after=ri,
+                 expected_volume=V1 + V2, expected_position=want_pos)
+        if not _same_rec(rm, ri, 0.0, 0.0):
+            fail("merge(inplace=True) differs from merge(inplace=False)", inplace=ri, copy=rm)
+        if y.data.tobytes() != by:
+            fail("merge(inplace=True) modified the second operand", after=_rec(y))
+        cls._merge_data(x3.data, y.data, out=x3.data)
+        if not _same_rec(rm, _rec(x3), 0.0, 0.0) or y.data.tobytes() != by:
+            fail("_merge_data(a, b, out=a) differs from the out-of-place result", got=_rec(x3), merge=rm)
+    except Exception as e:
+        fail(f"merging raised {type(e).__name__}: {e}")
+    return fails
+
+
+def oracle_provenance(rng, npairs, ctx=None):
+    fails = []
+    for cls_name in ("SphericalDroplet", "DiffuseDroplet"):
+        for d in (1, 2, 3):
+            names = list(_provenances(cls_name, d))
+            for p in names:
+                for k in range(npairs):
+                    A, B = _pair(rng, d)
+                    if A[0] == 0:
+                        A = (1.25, A[1], A[2])
+                    if B[0] == 0:
+                        B = (0.75, B[1], B[2])
+                    roles = [(p, "constructed"), ("constructed", p), (p, rng.choice(names))]
+                    for p1, p2 in roles:
+                        fails += check_provenance(cls_name, d, A, B, p1, p2)
+                        if ctx is not None:
+                            ctx.case(["provenance", cls_name, d, A, B, p1, p2])
+                            ctx.count("provenance_first_operand", p1)
+                            ctx.count("provenance_second_operand", p2)
+                if len(fails) > 60:
+                    return fails
+    return fails
+
+
 def _sample_goals(ctx, rng):
     """Generated definitions vs the implementation's own results, compared inside Coq."""
     goals, exec_goals = [], []
@@ -338,6 +470,7 @@ def check(ctx: vlib.Ctx) -> int:
     # property oracle over the implementation: always a small stream; larger when something is broken
     big = bool(ctx.broken)
     fails = oracle(rng, ctx.scale(12, 120) * (3 if big else 1), ctx.scale(4, 40) * (3 if big else 1), True, ctx)
+    fails += oracle_provenance(rng, ctx.scale(1, 6), ctx)
     seen = set()
     for f in fails:
         if f["what"] in seen:
@@ -354,7 +487,10 @@ def replay(path: str) -> int:
     print(json.dumps(obj, indent=1))
     inp = obj.get("input") or {}
     fails = []
-    if "r1" in inp:
+    if "provenance_first" in inp:
+        fails = check_provenance(inp["class"], inp["dim"], (inp["r1"], inp["p1"], inp["w1"]),
+                                 (inp["r2"], inp["p2"], inp["w2"]), inp["provenance_first"], inp["provenance_second"])
+    elif "r1" in inp:
         fails = check_pair(inp["class"], inp["dim"], (inp["r1"], inp["p1"], inp["w1"]),
                            (inp["r2"], inp["p2"], inp["w2"]))
     elif "operands" in inp:
